@@ -175,5 +175,19 @@ PROPS["C02"] = dict(
     assumptions=["inputs containing a required field marker (!:) are excluded: known crasher F1"],
 )
 
+PROPS["C15"] = dict(
+    pkg="c15",
+    subs=[
+        dict(name="hostile-zip", test="TestHostileZip", quick=3000, thorough=120000, shards=8),
+        dict(name="tree", test="TestTree", quick=2500, thorough=100000, shards=8),
+    ],
+    technique="rapid-generated file trees and header-level forged zip archives; round trip Create->CheckZip->Unzip against the generator's ground truth, containment invariant over a sandbox directory walk, three-way agreement of CheckFiles / CheckDir / CheckZip",
+    level_text="exploration: zips written with archive/zip directly (absolute and .. paths, backslashes, symlink/dir/pipe/device/setuid modes, duplicate and case-colliding names, forged declared sizes in both directions, oversized module and licence files declared in the header, nested cue.mod, local-module file, trailing garbage); extraction into a sandbox with sentinel files, full walk before and after. File trees from a name generator (unicode, case variants, dots, reserved names, long paths, vendor/VCS/submodule content).",
+    level_note="trusted: archive/zip as the hostile archive writer, the sandbox walk, the in-memory FileIO; sizes near the 500 MiB module limit are not materialised (only the 16 MiB module-file/licence limits are reached, through forged headers)",
+    rule="hostile-zip: 1-5 entries with names from a 70-name hostile pool x modes x forged sizes; after Unzip (success or error) nothing outside the target may be created/modified/removed, only regular files and directories inside, no file larger than declared; an accepted archive must pass CheckZipFile and extract only files CheckZip lists as valid. "
+         "tree: file list -> CheckFiles, Create, CheckZip, Unzip, CheckDir: Create succeeds iff CheckFiles has no error, its archive passes CheckZip with the same valid set, Unzip reproduces exactly the valid files byte for byte, CheckDir never lists a file as valid that CheckFiles rejects. Non-trivial = some name outside [a-z/.]+ (tree) / every hostile archive.",
+    assumptions=["files that CheckDir/CreateFromDir omit by design (vendor, VCS, submodules) are compared only in the direction 'never valid in one and invalid in the other'"],
+)
+
 NOT_APPLICABLE = {}
 HOOK_COMMITS = []
